@@ -255,6 +255,20 @@ func (w *World) ruleConvertedSinks(r *Report, rule string) {
 			ok := true
 			var facts []string
 			for _, v := range vals {
+				// the stored value is a parameter of an extracted helper
+				// (`growList(holder, list, elem)` = Append + change): it stands for the
+				// operands at the helper's call sites, each classified like a direct operand
+				if args, isPrm := w.helperParamOperands(v, 0); isPrm {
+					for _, a := range args {
+						if okA, fact := classifyConverted(a, conv); okA {
+							facts = append(facts, "parameter "+v.Name()+" ← "+fact)
+						} else {
+							ok = false
+							facts = append(facts, "parameter "+v.Name()+" ← "+fact)
+						}
+					}
+					continue
+				}
 				c, isCall := v.(*ssa.Call)
 				switch {
 				case isCall && c.Call.StaticCallee() != nil && conv[fnName(c.Call.StaticCallee())]:
@@ -278,6 +292,60 @@ func (w *World) ruleConvertedSinks(r *Report, rule string) {
 	// floor over the readers served (typed list, untyped list, typed map, map
 	// field), not over sink sites: two readers may store through one helper
 	r.floor(rule+" (Decoder methods whose stores were examined)", len(readers), 4)
+}
+
+// classifyConverted: one operand of a reflect sink: converted by the element
+// converter, or an interface-typed element `reflect.ValueOf(&x).Elem()`.
+func classifyConverted(v ssa.Value, conv map[string]bool) (bool, string) {
+	c, isCall := v.(*ssa.Call)
+	switch {
+	case isCall && c.Call.StaticCallee() != nil && conv[fnName(c.Call.StaticCallee())]:
+		return true, "converted by " + fnName(c.Call.StaticCallee())
+	case isCall && c.Call.StaticCallee() != nil && qualifiedFnName(c.Call.StaticCallee()) == "(reflect.Value).Elem":
+		if vo, ok := c.Call.Args[0].(*ssa.Call); ok && vo.Call.StaticCallee() != nil && qualifiedFnName(vo.Call.StaticCallee()) == "reflect.ValueOf" {
+			return true, "interface-typed element (ValueOf(&x).Elem())"
+		}
+	}
+	return false, "unconverted value " + v.String() + " (e.g. an int32 stored into a map[string]int panics)"
+}
+
+// helperParamOperands: v is a parameter of an unexported package function (not
+// a method, not a literal) that is only ever called statically from inside the
+// package: the operands handed over for it at all those call sites (a parameter
+// of a further such helper is followed, depth ≤ 3).  isPrm is false when v is not
+// such a parameter (then it is classified as it stands).
+func (w *World) helperParamOperands(v ssa.Value, depth int) (args []ssa.Value, isPrm bool) {
+	prm, ok := v.(*ssa.Parameter)
+	if !ok || depth > 3 {
+		return nil, false
+	}
+	fn := prm.Parent()
+	if fn == nil || fn.Parent() != nil || fn.Signature.Recv() != nil || token.IsExported(fn.Name()) || !w.inPkg(fn) {
+		return nil, false
+	}
+	pi := -1
+	for i, q := range fn.Params {
+		if q == prm {
+			pi = i
+		}
+	}
+	n := w.CG.Nodes[fn]
+	if pi < 0 || n == nil || len(n.In) == 0 {
+		return nil, false
+	}
+	for _, e := range n.In {
+		c, ok := e.Site.(*ssa.Call)
+		if !ok || c.Call.StaticCallee() != fn || e.Caller.Func == nil || !w.inPkg(e.Caller.Func) || pi >= len(c.Call.Args) {
+			return nil, false // called through a function value, go/defer, or from outside
+		}
+		a := c.Call.Args[pi]
+		if more, isP := w.helperParamOperands(a, depth+1); isP {
+			args = append(args, more...)
+		} else {
+			args = append(args, a)
+		}
+	}
+	return args, true
 }
 
 // decoderLayer: the methods of *Decoder, and the unexported package functions
